@@ -1024,6 +1024,11 @@ func (self *Fork) doSplit(getBindings func() MarshalerMap) MetadataState {
 			"%s: Error writing args file.",
 			self.fqname)
 	}
+	if state, _ := self.metadata.getState(); state == Failed {
+		// Resolving the input bindings failed and the fork was marked
+		// failed.  Don't run it with the incomplete arguments.
+		return Failed
+	}
 	if self.Split() {
 		if !self.split_has_run {
 			self.split_has_run = true
